@@ -582,8 +582,8 @@ func (r *runningStep) Close() error {
 		r.wg.Wait()
 		return nil
 	}
-	r.cancel()
 	verifhook.Emit("SCtx", "obj", r, "why", "close")
+	r.cancel()
 	r.wg.Wait()
 	r.logger.Debugf("Closing inputData channel in foreach step provider")
 	close(r.executeInput)
